@@ -3,8 +3,11 @@ from __future__ import annotations
 
 import asyncio
 import copy
+import enum
 import itertools
 import json
+import struct
+import types
 
 from harness.c04 import unwrap
 from harness.common import Ctx, Driver, compare_with_model, load_corpus
@@ -24,10 +27,17 @@ from aiohomekit.protocol.statuscodes import HapStatusCode, to_status_code
 ID = "C13"
 RULE = ("request sets of 1..4 characteristics over 1..2 aids x permissions {pr+pw, pw, pr+pw+tw, pw+tw, pr}; replies: EVERY status vector over {0, a HAP code, the same code "
         "positive-signed, an unknown code} for <=3 items (exhaustive), 204 vs 207, request-wide status with full/partial/absent lists, duplicated, non-dict, id-less and status-less "
-        "entries; IP read + IP/CoAP/BLE write. non-trivial = distinct (path, status vector, shape)")
+        "entries; IP read + IP/CoAP/BLE write; END TO END on all three transports (public put/get_characteristics, subscribe/unsubscribe over the real CoAPHomeKitConnection+"
+        "EncryptionContext.post/post_all, the real BLE request/PDU-fragment/session-key code, the real IP secure framing + HTTP parser; only the aiocoap context / GATT client / TCP "
+        "transport is an in-memory accessory that decrypts, decides per item and answers): requests of 1..4 items INCLUDING lone ones, every accept/reject vector for <=3 items "
+        "(rejected first/middle/last/only), every PDU error status 1..6 resp. every HAP status, value formats bool/uint8/int/float/string, BLE timed writes refused at either stage, "
+        "IP reply styles spec/positive-signed/terse/always-207/400, histories of 2..8 operations on one session. non-trivial = distinct (path, status vector, shape)")
 TRUSTED = ["aiohomekit.model (Accessories/Characteristic.perms) as the source of permissions", "json for the line protocol"]
 ASSUMPTIONS = ["reply JSON is an object; ids and statuses are integers (domain of the model)",
-               "BLE: the GATT request layer is replaced by a stub that raises PDUStatusError for a rejected write (C17 covers the PDU layer)"]
+               "BLE (stub stream): the GATT request layer is replaced by a stub that raises PDUStatusError for a rejected write (C17 covers the PDU layer)",
+               "end-to-end streams: the session keys are given (pair-verify is C01's), the BLE pairing's model is built from the layout (the GATT database fetch is C16/C17's); the "
+               "in-memory accessory is conformant (answers every item under the request's transaction id / in a well-formed HTTP reply); instance ids are unique over the database",
+               "BLE reads: a characteristic the accessory refused to read may be left out of the result (documented behaviour of that path); it must never be given a value"]
 EXPLANATION = "Lean theorems C13_* over models of format_characteristic_list / to_status_code / put paths (status table regenerated from source); differential tie on the public pairing methods"
 
 CODES = [0, -70402, 70410, 12345]
@@ -98,6 +108,7 @@ def run(ctx: Ctx, driver: Driver):
     coap_write(ctx, driver, rng, loop)
     ble_write(ctx, driver, rng, loop)
     loop.close()
+    e2e_streams(ctx, driver, rng)
 
 
 def status_stream(ctx, driver):
@@ -452,7 +463,896 @@ def ble_write(ctx, driver, rng, loop):
     compare_with_model(ctx, "blewrite", cases, outs, lines, driver)
 
 
+# =====================================================================================================================
+# End-to-end streams.  The public pairing methods (put_characteristics / get_characteristics / subscribe / unsubscribe)
+# run over the REAL connection, session and PDU / HTTP code of each transport:
+#   CoAP: CoAPPairing -> CoAPHomeKitConnection -> EncryptionContext.post / post_all (real ChaCha20-Poly1305, real PDU
+#         encode / decode, database fetched with the real UNK_09 request); only the aiocoap client context is replaced
+#   BLE : BlePairing (public, decorated methods) -> _async_request_under_lock -> ble_request -> PDU fragmentation and
+#         EncryptionKey / DecryptionKey; only the GATT client (the radio) is replaced
+#   IP  : IpPairing -> HomeKitConnection.put_json / get_json -> request -> SecureHomeKitProtocol (real framing and HTTP
+#         response parser, accessory model fetched with the real GET /accessories); only the TCP transport is replaced
+# Behind the fake network sits ONE in-memory accessory that decrypts the request, decides item by item (accept, or one of
+# the transport's error statuses - scripted per operation) and answers in the transport's own format.  The oracle reads
+# the ACCESSORY'S OWN LOG of what it accepted / rejected / returned, never the library's state.
+# A case is a history: a layout plus a list of operations executed in order on one session (so session counters, the
+# connection's value cache and the subscription set carry over from one operation to the next).
+# =====================================================================================================================
+K_C2A, K_A2C, K_EVT = bytes(range(32)), bytes(range(32, 64)), bytes(range(64, 96))
+
+E2E_FMT = {  # format -> (GATT presentation format, short HAP type used for it, struct code)
+    "bool": (0x01, 0x25, "<?"), "uint8": (0x04, 0x08, "<B"), "int": (0x10, 0xCE, "<i"), "float": (0x14, 0x13, "<f"), "string": (0x19, 0x23, None)}
+E2E_PERMS = ["rw", "rw", "rw", "w", "r", "trw", "tw"]
+PDU_ERRORS = [1, 2, 3, 4, 5, 6]  # every non-success HAP PDU status (CoAP and BLE)
+HAP_ERRORS = [c.value for c in HapStatusCode if c.value not in (0, -1)]  # every defined HAP status (IP)
+TRANSPORTS = ("coap", "ble", "ip")
+
+
+def _nonce(n):
+    return struct.pack("<4xQ", n)
+
+
+def _aead(key):
+    from cryptography.hazmat.primitives.ciphers.aead import ChaCha20Poly1305
+    return ChaCha20Poly1305(key)
+
+
+def raw_of(fmt, v):
+    code = E2E_FMT[fmt][2]
+    return v.encode("utf-8") if code is None else struct.pack(code, v)
+
+
+def value_of(fmt, raw):
+    code = E2E_FMT[fmt][2]
+    if code is None:
+        return bytes(raw).decode("utf-8")
+    if len(raw) != struct.calcsize(code):
+        raise ValueError("length")
+    return struct.unpack(code, bytes(raw))[0]
+
+
+def gen_value(rng, fmt, long_strings=False):
+    if fmt == "bool":
+        return rng.choice([True, False])
+    if fmt == "uint8":
+        return rng.choice([0, 1, 100, 255, rng.randint(0, 255)])
+    if fmt == "int":
+        return rng.choice([0, -1, 153, 2 ** 31 - 1, -2 ** 31, rng.randint(-100000, 100000)])
+    if fmt == "float":
+        return rng.randint(-1440, 1440) / 4  # exact in binary32
+    n = rng.choice([1, 3, 12, 80, 200]) if long_strings else rng.choice([1, 3, 12])
+    return "".join(rng.choice("abcXYZ 09-") for _ in range(n))
+
+
+def _tlv8(tag, val):
+    val = bytes(val)
+    if not val:
+        return bytes([tag, 0])
+    return b"".join(bytes([tag, len(val[o:o + 255])]) + val[o:o + 255] for o in range(0, len(val), 255))
+
+
+def _tlv8_parse(buf):
+    out, off, last = [], 0, None
+    while off + 2 <= len(buf):
+        t, ln = buf[off], buf[off + 1]
+        v = bytes(buf[off + 2:off + 2 + ln])
+        if last is not None and last[0] == t and last[2] == 255:
+            last[1] += v
+            last[2] = ln
+        else:
+            last = [t, v, ln]
+            out.append(last)
+        off += 2 + ln
+    return [(t, v) for t, v, _ in out]
+
+
+def _grouped(layout):
+    g = {}
+    for c in layout:
+        g.setdefault(c["aid"], {}).setdefault(c["svc"], []).append(c)
+    return [(aid, [(s, g[aid][s]) for s in sorted(g[aid])]) for aid in sorted(g)]
+
+
+def hap_perms(perm):
+    out = []
+    if "r" in perm:
+        out += ["pr", "ev"]
+    if "w" in perm:
+        out.append("pw")
+    if "t" in perm:
+        out.append("tw")
+    return out
+
+
+def model_json(layout):
+    """the accessory database in HAP JSON (what an IP accessory serves at /accessories; also the BLE pairing's model)"""
+    out = []
+    for aid, svcs in _grouped(layout):
+        sv = []
+        for s, chars in svcs:
+            cs = []
+            for c in chars:
+                e = {"iid": c["iid"], "type": "%X" % E2E_FMT[c["fmt"]][1], "perms": hap_perms(c["perm"]), "format": c["fmt"]}
+                if "r" in c["perm"]:
+                    e["value"] = c["value"]
+                cs.append(e)
+            sv.append({"iid": 1000 + s, "type": "43" if s == 0 else "49", "characteristics": cs})
+        out.append({"aid": aid, "services": sv})
+    return out
+
+
+def coap_database(layout):
+    """the same database as the TLV8 body of a HAP-over-CoAP database read (encoded here, not by the library)"""
+    accs = []
+    for aid, svcs in _grouped(layout):
+        sv = []
+        for s, chars in svcs:
+            cs = []
+            for c in chars:
+                p = c["perm"]
+                props = (0x10 if "r" in p else 0) | (0x20 if "w" in p else 0) | (0x08 if "t" in p else 0) | (0x80 if "r" in p else 0)
+                gatt, typ, _ = E2E_FMT[c["fmt"]]
+                cs.append(_tlv8(0x13, _tlv8(0x04, bytes([typ])) + _tlv8(0x05, struct.pack("<H", c["iid"])) + _tlv8(0x0A, struct.pack("<H", props))
+                                + _tlv8(0x0C, struct.pack("<BbHBH", gatt, 0, 0x2700, 1, 0))))
+            sv.append(_tlv8(0x15, _tlv8(0x07, struct.pack("<H", 1000 + s)) + _tlv8(0x06, bytes([0x43 if s == 0 else 0x49])) + _tlv8(0x14, b"\x00\x00".join(cs))))
+        accs.append(_tlv8(0x19, _tlv8(0x1A, struct.pack("<H", aid)) + _tlv8(0x16, b"\x00\x00".join(sv))))
+    return _tlv8(0x18, b"\x00\x00".join(accs))
+
+
+class Accessory:
+    """transport-independent core of the in-memory accessory: state, the per-operation script and the log"""
+
+    def __init__(self, layout, transport):
+        self.by_iid = {c["iid"]: c for c in layout}  # instance ids are unique over the whole database by construction
+        self.values = {c["iid"]: c["value"] for c in layout}
+        self.default_error = -70409 if transport == "ip" else 6
+        self.script = {}  # (kind, iid) -> status to answer with during the current operation
+        self.log = []  # (kind, iid, status answered, value returned / stored)
+        self.pending = {}  # iid -> value of a timed write waiting for its execute
+
+    def decide(self, kind, iid):
+        st = self.script.get((kind, iid))
+        if st is None:  # not scripted (database sweep, or the library asks for something the operation did not name)
+            c = self.by_iid.get(iid)
+            need = "w" if kind in ("write", "twrite", "exec") else "r"
+            st = 0 if c is not None and need in c["perm"] else self.default_error
+        return st
+
+    def note(self, kind, iid, st, value=None):
+        self.log.append((kind, iid, st, value))
+        return st
+
+    # ---- HAP PDU semantics shared by CoAP and BLE (opcode numbers are the HAP ones)
+    def pdu(self, opcode, iid, body, ble):
+        """-> (status, response body)"""
+        c = self.by_iid.get(iid)
+        if opcode == 0x03:
+            st = self.decide("read", iid)
+            if st == 0 and c is None:
+                st = 4
+            if st:
+                return self.note("read", iid, st), b""
+            v = self.values[iid]
+            self.note("read", iid, 0, v)
+            return 0, _tlv8(0x01, raw_of(c["fmt"], v))
+        if opcode in (0x02, 0x04):
+            kind = "write" if opcode == 0x02 else "twrite"
+            st = self.decide(kind, iid)
+            v = None
+            if st == 0:
+                try:
+                    tl = dict(_tlv8_parse(body[2:] if opcode == 0x04 else body))
+                    v = value_of(c["fmt"], tl[0x01])
+                except Exception:  # noqa: BLE001 - a body this accessory cannot make sense of is an invalid request
+                    st = 6
+            if st == 0:
+                if kind == "write":
+                    self.values[iid] = v
+                else:
+                    self.pending[iid] = v
+            return self.note(kind, iid, st, v), b""
+        if opcode == 0x05:
+            st = self.decide("exec", iid)
+            if st == 0 and iid not in self.pending:
+                st = 6
+            v = None
+            if st == 0:
+                v = self.values[iid] = self.pending.pop(iid)
+            else:
+                self.pending.pop(iid, None)
+            return self.note("exec", iid, st, v), b""
+        if opcode in (0x0B, 0x0C) and not ble:
+            kind = "sub" if opcode == 0x0B else "unsub"
+            return self.note(kind, iid, self.decide(kind, iid)), b""
+        return 1, b""  # unsupported PDU
+
+
+# ---------------------------------------------------------------------------------------------------------------- CoAP
+class CoapNet:
+    """stands for the aiocoap client context: a POST goes straight to the accessory, the reply comes straight back"""
+
+    def __init__(self, acc, layout):
+        self.acc = acc
+        self.db = coap_database(layout)
+        self.rx = self.tx = 0
+        self.dec, self.enc = _aead(K_C2A), _aead(K_A2C)
+
+    def request(self, msg):
+        from aiocoap.numbers.codes import Code
+        plain = self.dec.decrypt(_nonce(self.rx), bytes(msg.payload), b"")
+        self.rx += 1
+        out, off = b"", 0
+        while off + 7 <= len(plain):
+            _control, opcode, tid, iid, ln = struct.unpack("<BBBHH", plain[off:off + 7])
+            body = plain[off + 7:off + 7 + ln]
+            off += 7 + ln
+            if opcode == 0x09:
+                st, rb = 0, self.db
+            else:
+                st, rb = self.acc.pdu(opcode, iid, body, ble=False)
+            out += struct.pack("<BBBH", 0x02, tid, st, len(rb)) + rb
+        enc = self.enc.encrypt(_nonce(self.tx), out, b"")
+        self.tx += 1
+        fut = asyncio.get_running_loop().create_future()
+        fut.set_result(types.SimpleNamespace(code=Code.CHANGED, payload=enc))
+        return types.SimpleNamespace(response=fut)
+
+    async def shutdown(self):
+        pass
+
+
+async def coap_world(case, acc):
+    from aiohomekit.characteristic_cache import CharacteristicCacheMemory
+    from aiohomekit.controller.coap.connection import EncryptionContext
+    controller = types.SimpleNamespace(_char_cache=CharacteristicCacheMemory())
+    p = CoAPPairing(controller, {"AccessoryPairingID": "aa:bb:cc:dd:ee:ff", "AccessoryIP": "fd00::1", "AccessoryPort": 5683, "Connection": "CoAP"})
+    # an established session (what pair-verify produces); from here on everything is the library's own code
+    p.connection.enc_ctx = EncryptionContext(_aead(K_A2C), _aead(K_C2A), _aead(K_EVT), "coap://[fd00::1]:5683/", CoapNet(acc, case["layout"]))
+    await p.list_accessories_and_characteristics()
+    return p, (lambda: p.connection.enc_ctx is not None and p.connection.enc_ctx.coap_ctx is not None)
+
+
+# ----------------------------------------------------------------------------------------------------------------- BLE
+class GattHandle:
+    properties = ("read", "write")
+    max_write_without_response_size = None
+
+    def __init__(self, iid):
+        self.iid = iid
+        self.rx = None
+        self.tx = []
+
+
+class BleRadio:
+    """stands for the GATT client: writes to / reads from a characteristic reach the accessory's HAP-BLE procedure layer"""
+    address = "AA:BB:CC:DD:EE:FF"
+
+    def __init__(self, acc, mtu, short_header):
+        self.acc = acc
+        self.mtu = mtu
+        self.short_header = short_header
+        self.is_connected = True
+        self.handles = {}
+        self.rx = self.tx = 0
+        self.dec, self.enc = _aead(K_C2A), _aead(K_A2C)
+
+    async def get_characteristic(self, service_uuid, characteristic_uuid, iid=None):
+        return self.handles.setdefault(iid, GattHandle(iid))
+
+    def determine_fragment_size(self, overhead, handle):
+        return self.mtu - 3 - overhead
+
+    async def write_gatt_char(self, handle, data, response=None):
+        plain = self.dec.decrypt(_nonce(self.rx), bytes(data), b"")
+        self.rx += 1
+        if plain[0] & 0x80:
+            if handle.rx is None or plain[1] != handle.rx["tid"]:
+                raise RuntimeError("accessory: continuation without a request")
+            handle.rx["body"] += plain[2:]
+        else:
+            _control, opcode, tid, iid = struct.unpack("<BBBH", plain[:5])
+            ln = struct.unpack("<H", plain[5:7])[0] if len(plain) >= 7 else 0
+            handle.rx = {"opcode": opcode, "tid": tid, "iid": iid, "len": ln, "body": bytearray(plain[7:])}
+        req = handle.rx
+        if len(req["body"]) >= req["len"]:
+            handle.rx = None
+            st, rb = self.acc.pdu(req["opcode"], req["iid"], bytes(req["body"][:req["len"]]), ble=True)
+            size = self.mtu - 3 - 16
+            if not rb and self.short_header:
+                handle.tx = [struct.pack("<BBB", 0x02, req["tid"], st)]
+            else:
+                handle.tx = [struct.pack("<BBBH", 0x02, req["tid"], st, len(rb)) + rb[:size - 5]]
+                rest = rb[size - 5:]
+                for o in range(0, len(rest), size - 2):
+                    handle.tx.append(struct.pack("<BB", 0x82, req["tid"]) + rest[o:o + size - 2])
+
+    async def read_gatt_char(self, handle):
+        if not handle.tx:
+            raise RuntimeError("accessory: read without a pending response")
+        out = self.enc.encrypt(_nonce(self.tx), handle.tx.pop(0), b"")
+        self.tx += 1
+        return bytearray(out)
+
+    async def disconnect(self):
+        self.is_connected = False
+
+    async def clear_cache(self):
+        pass
+
+
+async def ble_world(case, acc):
+    from aiohomekit.characteristic_cache import CharacteristicCacheMemory
+    from aiohomekit.controller.ble.key import DecryptionKey, EncryptionKey
+    controller = types.SimpleNamespace(_char_cache=CharacteristicCacheMemory())
+    radio = BleRadio(acc, case.get("mtu", 158), case.get("short_header", False))
+    p = BlePairing(controller, {"AccessoryPairingID": "aa:bb:cc:dd:ee:ff", "AccessoryAddress": "AA:BB:CC:DD:EE:FF", "Connection": "BLE"}, client=radio)
+    # a connected, pair-verified session with the database known (connection set-up and the GATT database fetch are other properties' business)
+    p._accessories_state = AccessoriesState(Accessories.from_list(model_json(case["layout"])), 1, None, 0)
+    p._encryption_key = EncryptionKey(K_C2A)
+    p._decryption_key = DecryptionKey(K_A2C)
+    return p, (lambda: p.client is radio and radio.is_connected and p._encryption_key is not None)
+
+
+# ------------------------------------------------------------------------------------------------------------------ IP
+class IpWire:
+    """stands for the TCP transport: bytes written reach the accessory's HAP HTTP server, its reply is fed to the protocol"""
+
+    def __init__(self, acc, layout, cuts, chunked, style="spec"):
+        self.acc = acc
+        self.layout = layout
+        self.cuts = list(cuts)
+        self.chunked = chunked
+        # how this accessory words its replies: "spec" = 204 when everything succeeded, else 207 listing every item;
+        # "positive" = the same with positive-signed status codes (seen in the field); "terse" = the 207 lists only the
+        # failed items; "verbose" = always 207 with the full list, even when everything succeeded; "400" = a write
+        # request of which EVERY item failed is answered 400 Bad Request (with the full list; value writes only - what the
+        # library makes of a refused subscription request is not this property's business)
+        self.style = style
+        self.protocol = None
+        self.closed = False
+        self.buf = bytearray()
+        self.http = b""
+        self.rx = self.tx = 0
+        self.dec, self.enc = _aead(K_C2A), _aead(K_A2C)
+        self.replies = []  # (status code, parsed body or None) of every /characteristics request
+
+    def is_closing(self):
+        return self.closed
+
+    def close(self):
+        self.closed = True
+
+    def write_eof(self):
+        pass
+
+    def get_extra_info(self, *a, **k):
+        return None
+
+    def write(self, data):
+        self.writelines([data])
+
+    def writelines(self, chunks):
+        self.buf += b"".join(bytes(c) for c in chunks)
+        while len(self.buf) >= 2:
+            ln = struct.unpack("<H", self.buf[:2])[0]
+            if len(self.buf) < 2 + ln + 16:
+                break
+            self.http += self.dec.decrypt(_nonce(self.rx), bytes(self.buf[2:2 + ln + 16]), bytes(self.buf[:2]))
+            self.rx += 1
+            del self.buf[:2 + ln + 16]
+        while True:
+            head, sep, rest = self.http.partition(b"\r\n\r\n")
+            if not sep:
+                return
+            lines = head.split(b"\r\n")
+            method, target = lines[0].split(b" ")[:2]
+            hdrs = {ln.split(b":", 1)[0].strip().lower(): ln.split(b":", 1)[1].strip() for ln in lines[1:] if b":" in ln}
+            n = int(hdrs.get(b"content-length", b"0"))
+            if len(rest) < n:
+                return
+            self.http = rest[n:]
+            self.send(self.serve(method.decode(), target.decode(), rest[:n]))
+
+    def send(self, resp):
+        frames = b""
+        for o in range(0, len(resp), 1024):
+            chunk = resp[o:o + 1024]
+            lb = struct.pack("<H", len(chunk))
+            frames += lb + self.enc.encrypt(_nonce(self.tx), chunk, lb)
+            self.tx += 1
+        loop = asyncio.get_running_loop()
+        step = self.cuts.pop(0) if self.cuts else 0
+        segs = [frames[o:o + step] for o in range(0, len(frames), step)] if step else [frames]
+        for seg in segs:
+            loop.call_soon(self.protocol.data_received, seg)
+
+    def http_reply(self, code, reason, obj):
+        if obj is None:
+            return f"HTTP/1.1 {code} {reason}\r\n\r\n".encode()
+        body = json.dumps(obj, separators=(",", ":")).encode()
+        head = f"HTTP/1.1 {code} {reason}\r\nContent-Type: application/hap+json\r\n"
+        if self.chunked:
+            half = max(1, len(body) // 2)
+            parts = [body[:half], body[half:]]
+            return (head + "Transfer-Encoding: chunked\r\n\r\n").encode() + b"".join(b"%x\r\n%s\r\n" % (len(x), x) for x in parts if x) + b"0\r\n\r\n"
+        return (head + f"Content-Length: {len(body)}\r\n\r\n").encode() + body
+
+    def serve(self, method, target, body):
+        acc = self.acc
+        if method == "GET" and target == "/accessories":
+            return self.http_reply(200, "OK", {"accessories": model_json(self.layout)})
+        if method == "GET" and target.startswith("/characteristics?id="):
+            ids = [tuple(int(x) for x in t.split(".")) for t in target.split("=", 1)[1].split("&")[0].split(",")]
+            rows, bad = [], False
+            for aid, iid in ids:
+                c = acc.by_iid.get(iid)
+                st = acc.decide("read", iid)
+                if st == 0 and (c is None or c["aid"] != aid):
+                    st = -70409
+                if st:
+                    acc.note("read", iid, st)
+                    rows.append({"aid": aid, "iid": iid, "status": abs(st) if self.style == "positive" else st})
+                    bad = True
+                else:
+                    acc.note("read", iid, 0, acc.values[iid])
+                    rows.append({"aid": aid, "iid": iid, "value": acc.values[iid]})
+            if bad:
+                for r in rows:
+                    r.setdefault("status", 0)
+            self.replies.append((207 if bad else 200, {"characteristics": rows}))
+            return self.http_reply(207 if bad else 200, "Multi-Status" if bad else "OK", {"characteristics": rows})
+        if method == "PUT" and target == "/characteristics":
+            rows, bad = [], False
+            for e in json.loads(body)["characteristics"]:
+                aid, iid = e["aid"], e["iid"]
+                c = acc.by_iid.get(iid)
+                kind = "write" if "value" in e else ("sub" if e.get("ev") else "unsub")
+                st = acc.decide(kind, iid)
+                if st == 0 and (c is None or c["aid"] != aid):
+                    st = -70409
+                if st == 0 and kind == "write":
+                    acc.values[iid] = e["value"]
+                acc.note(kind, iid, st, e.get("value"))
+                rows.append({"aid": aid, "iid": iid, "status": abs(st) if self.style == "positive" else st})
+                bad = bad or st != 0
+            if not bad and self.style != "verbose":
+                self.replies.append((204, None))
+                return self.http_reply(204, "No Content", None)
+            if self.style == "terse":
+                rows = [r for r in rows if r["status"] != 0]
+            all_failed_writes = all(r["status"] != 0 for r in rows) and all("value" in e for e in json.loads(body)["characteristics"])
+            code, reason = (400, "Bad Request") if self.style == "400" and all_failed_writes else (207, "Multi-Status")
+            self.replies.append((code, {"characteristics": rows}))
+            return self.http_reply(code, reason, {"characteristics": rows})
+        return self.http_reply(404, "Not Found", None)
+
+
+async def ip_world(case, acc):
+    from aiohomekit.characteristic_cache import CharacteristicCacheMemory
+    from aiohomekit.controller.ip.connection import SecureHomeKitProtocol
+    controller = types.SimpleNamespace(_char_cache=CharacteristicCacheMemory())
+    p = IpPairing(controller, {"AccessoryPairingID": "aa:bb:cc:dd:ee:ff", "AccessoryIP": "192.0.2.7", "AccessoryPort": 5001, "Connection": "IP"})
+    conn = p.connection
+    wire = IpWire(acc, case["layout"], case.get("cuts", []), case.get("chunked", False), case.get("style", "spec"))
+    proto = SecureHomeKitProtocol(conn, K_A2C, K_C2A)  # an established secure session (what pair-verify produces)
+    wire.protocol = proto
+    proto.connection_made(wire)
+    conn.transport, conn.protocol, conn.is_secure = wire, proto, True
+    conn.connected_host, conn.host_header = "192.0.2.7", "Host: 192.0.2.7"
+    await p.list_accessories_and_characteristics()
+    p._e2e_wire = wire
+    return p, (lambda: conn.protocol is proto and not wire.closed)
+
+
+WORLDS = {"coap": coap_world, "ble": ble_world, "ip": ip_world}
+
+
+# ---------------------------------------------------------------------------------------------------------- the oracles
+def _status_of(ent):
+    """status an entry of a result dict presents: 0 = presented as successful; None = not an entry at all"""
+    if ent is None:
+        return 0
+    if not isinstance(ent, dict):
+        return None
+    st = ent.get("status", 0)
+    if isinstance(st, enum.Enum):
+        st = st.value
+    return st if isinstance(st, int) and not isinstance(st, bool) else None
+
+
+def _same(a, b):
+    return type(a) is type(b) and a == b
+
+
+def _fmt_exc(e):
+    return f"{type(e).__name__}: {str(e)[:80]}"
+
+
+def write_oracle(t, op, perms, log, r, raised, events):
+    P = []
+    items = op["items"]
+    accepted, rejected = set(), {}
+    for kind, iid, st, _v in log:
+        if kind in ("write", "exec"):
+            if st == 0:
+                accepted.add(iid)
+            else:
+                rejected[iid] = st
+        elif kind == "twrite" and st != 0:
+            rejected[iid] = st
+    what = (f"{t} put_characteristics({[(i['aid'], i['iid'], i['value']) for i in items]}): the accessory accepted the writes of iids {sorted(accepted)} and rejected "
+            f"{ {k: v for k, v in sorted(rejected.items())} }")
+    notified = {}
+    for ev in events:
+        if isinstance(ev, dict):
+            notified.update(ev)
+    keys = [(i["aid"], i["iid"]) for i in items]
+    if raised is not None:
+        what += f"; the call raised {_fmt_exc(raised)}"
+        if not rejected:
+            P.append((f"{t}-e2e/write-raised", what + " although the accessory rejected nothing"))
+    else:
+        what += f"; the call returned {r!r}"
+        if not isinstance(r, dict):
+            P.append((f"{t}-e2e/write-result", what + " which is not a result dict"))
+            r = {}
+        for it, key in zip(items, keys):
+            st = _status_of(r.get(key))
+            if st is None:
+                P.append((f"{t}-e2e/write-result", what + f"; the entry for {key} is not a status entry"))
+            elif it["iid"] in accepted:
+                if st != 0:
+                    P.append((f"{t}-e2e/accepted-reported-failed", what + f"; {key} was accepted but is reported with status {st}"))
+            elif st == 0:
+                how = f"REJECTED with status {rejected[it['iid']]}" if it["iid"] in rejected else "never accepted (no write for it was accepted by the accessory)"
+                P.append((f"{t}-e2e/false-success", what + f"; {key} was {how} but is presented as written (no non-zero status)"))
+            elif it["iid"] in rejected and abs(st) != abs(rejected[it["iid"]]):
+                P.append((f"{t}-e2e/write-status", what + f"; {key} was rejected with status {rejected[it['iid']]} but is reported with status {st}"))
+        for key, ent in r.items():
+            if key not in keys and _status_of(ent) != 0:
+                P.append((f"{t}-e2e/invented-status", what + f"; {key} was not part of the request"))
+    want = {key: it["value"] for it, key in zip(items, keys) if it["iid"] in accepted and "r" in perms[it["iid"]]}
+    if set(notified) != set(want):
+        fs = sorted(set(notified) - set(want))
+        P.append((f"{t}-e2e/false-success" if fs else f"{t}-e2e/accepted-not-notified",
+                  what + f"; listeners were told the new value of {sorted(notified)} but the accepted readable characteristics are {sorted(want)}"))
+    else:
+        for key, v in want.items():
+            got = notified[key]
+            if not (isinstance(got, dict) and "value" in got and got["value"] == v):
+                P.append((f"{t}-e2e/notified-value", what + f"; listeners were told {got!r} for {key}, the written value is {v!r}"))
+    return P, accepted, rejected, notified
+
+
+def read_oracle(t, op, log, r, raised, ctx=None):
+    P = []
+    items = op["items"]
+    keys = [(i["aid"], i["iid"]) for i in items]
+    answered = {iid: (st, v) for kind, iid, st, v in log if kind == "read"}
+    shown = {i: (v if st == 0 else f"status {st}") for i, (st, v) in sorted(answered.items())}
+    what = f"{t} get_characteristics({keys}): the accessory answered {shown}"
+    if raised is not None:
+        P.append((f"{t}-e2e/read-raised", what + f"; the call raised {_fmt_exc(raised)}"))
+        return P
+    what += f"; the call returned {r!r}"
+    if not isinstance(r, dict):
+        return [(f"{t}-e2e/read-result", what + " which is not a result dict")]
+    for it, key in zip(items, keys):
+        ent = r.get(key)
+        if it["iid"] not in answered:
+            if isinstance(ent, dict) and "value" in ent:
+                P.append((f"{t}-e2e/read-invented", what + f"; {key} was never answered by the accessory"))
+            continue
+        st, v = answered[it["iid"]]
+        if st == 0:
+            if not (isinstance(ent, dict) and "value" in ent and _same(ent["value"], v) and _status_of(ent) == 0):
+                P.append((f"{t}-e2e/read-value", what + f"; the accessory's value of {key} is {v!r} but the result has {ent!r}"))
+        elif ent is None:
+            if t == "ble":  # the BLE read path documents that it leaves out what it could not read; tolerated, counted
+                if ctx is not None:
+                    ctx.dist["ble-e2e read: rejected item left out of the result"] += 1
+            else:
+                P.append((f"{t}-e2e/read-error-dropped", what + f"; {key} was answered with status {st} but is missing from the result"))
+        elif not isinstance(ent, dict) or "value" in ent or _status_of(ent) in (0, None):
+            P.append((f"{t}-e2e/read-error-as-value", what + f"; {key} was answered with status {st} but the result has {ent!r}"))
+        elif abs(_status_of(ent)) != abs(st):
+            P.append((f"{t}-e2e/read-status", what + f"; {key} was answered with status {st} but is reported with status {_status_of(ent)}"))
+    for key, ent in r.items():
+        if key not in keys:
+            P.append((f"{t}-e2e/read-invented", what + f"; {key} was not requested"))
+    return P
+
+
+def subscribe_oracle(t, op, log, r, raised):
+    P = []
+    items = op["items"]
+    kind = "sub" if op["op"] == "subscribe" else "unsub"
+    keys = [(i["aid"], i["iid"]) for i in items]
+    answered = {iid: st for k, iid, st, _v in log if k == kind}
+    rejected = {i: st for i, st in answered.items() if st != 0}
+    what = f"{t} {op['op']}({keys}): the accessory answered {dict(sorted(answered.items()))}"
+    if raised is not None:
+        if not rejected:
+            P.append((f"{t}-e2e/{op['op']}-raised", what + f"; the call raised {_fmt_exc(raised)} although the accessory rejected nothing"))
+        return P
+    what += f"; the call returned {r!r}"
+    if r is not None and not isinstance(r, dict):
+        return [(f"{t}-e2e/{op['op']}-result", what + " which is neither None nor a result dict")]
+    for it, key in zip(items, keys):
+        st = _status_of((r or {}).get(key))
+        if it["iid"] in rejected:
+            if st == 0:
+                P.append((f"{t}-e2e/{op['op']}-false-success", what + f"; {key} was rejected with status {rejected[it['iid']]} but is presented as done"))
+        elif st != 0:
+            P.append((f"{t}-e2e/{op['op']}-invented-status", what + f"; {key} was not rejected but is reported with {(r or {}).get(key)!r}"))
+    return P
+
+
+# ------------------------------------------------------------------------------------------------------ running a case
+async def _e2e_history(case, ctx=None, rows=None):
+    t = case["transport"]
+    layout = case["layout"]
+    perms = {c["iid"]: c["perm"] for c in layout}
+    acc = Accessory(layout, t)
+    problems = []
+    done = 0
+    try:
+        p, alive = await WORLDS[t](case, acc)
+    except Exception as e:  # noqa: BLE001
+        return [(f"{t}-e2e/setup-raised", f"{t}: fetching the accessory database from a conformant accessory raised {_fmt_exc(e)}", 0)], 0
+    events = []
+    p.dispatcher_connect(events.append)
+    for n, op in enumerate(case["ops"]):
+        if not alive():
+            break  # the session is gone (a failed request closes it); what follows would need a new connection
+        kind = op["op"]
+        acc.script = {}
+        for it in op["items"]:
+            st = it.get("st", 0)
+            if kind == "write":
+                if t == "ble" and "t" in perms[it["iid"]]:
+                    acc.script[("twrite", it["iid"])] = st if it.get("stage", "timed") == "timed" else 0
+                    acc.script[("exec", it["iid"])] = st if it.get("stage", "timed") == "exec" else 0
+                else:
+                    acc.script[("write", it["iid"])] = st
+            else:
+                acc.script[({"read": "read", "subscribe": "sub", "unsubscribe": "unsub"}[kind], it["iid"])] = st
+        start = len(acc.log)
+        wire = getattr(p, "_e2e_wire", None)
+        nrep = len(wire.replies) if wire is not None else 0
+        del events[:]
+        seq = tuple if op.get("as") == "tuple" else list
+        r, raised = None, None
+        try:
+            if kind == "write":
+                r = await p.put_characteristics(seq((i["aid"], i["iid"], i["value"]) for i in op["items"]))
+            elif kind == "read":
+                r = await p.get_characteristics(seq((i["aid"], i["iid"]) for i in op["items"]))
+            elif kind == "subscribe":
+                r = await p.subscribe(seq((i["aid"], i["iid"]) for i in op["items"]))
+            else:
+                r = await p.unsubscribe(seq((i["aid"], i["iid"]) for i in op["items"]))
+        except (Exception, asyncio.CancelledError) as e:  # noqa: BLE001
+            raised = e
+        log = acc.log[start:]
+        done += 1
+        try:
+            if kind == "write":
+                P, accepted, rejected, notified = write_oracle(t, op, perms, log, r, raised, list(events))
+                if rows is not None and not P and (raised is None or t == "ble"):
+                    rows.append((t, op, perms, accepted, rejected, notified, r, raised, wire.replies[nrep:] if wire is not None else None))
+            elif kind == "read":
+                P = read_oracle(t, op, log, r, raised, ctx)
+            else:
+                P = subscribe_oracle(t, op, log, r, raised)
+        except Exception as e:  # noqa: BLE001 - a result so malformed that it cannot even be inspected
+            P = [(f"{t}-e2e/malformed-result", f"{t} {kind} of {[(i['aid'], i['iid']) for i in op['items']]}: the call returned {r!r} / listeners got {events!r}, which cannot be read as a "
+                  f"result ({_fmt_exc(e)})")]
+        problems += [(sig, f"operation {n + 1} of the history: {what}", n) for sig, what in P]
+    if t == "ip":
+        p.connection.transport = None
+        p.connection.protocol = None
+    return problems, done
+
+
+def e2e_run_case(case, ctx=None, rows=None):
+    """-> ([(signature, what, index of the operation)], operations executed); [] = the property held on this history"""
+    loop = asyncio.new_event_loop()
+    try:
+        return loop.run_until_complete(_e2e_history(case, ctx, rows))
+    finally:
+        try:
+            loop.run_until_complete(asyncio.sleep(0))
+        finally:
+            loop.close()
+
+
+# ----------------------------------------------------------------------------------------------------- the generators
+def gen_layout(rng, t, n=None):
+    n = n or rng.randint(4, 7)
+    aids = [1] if t == "ble" or rng.random() < 0.6 else [1, 2]
+    layout, iid = [], rng.randint(2, 40)
+    for _ in range(n):
+        iid += rng.randint(1, 5)
+        fmt = rng.choice(list(E2E_FMT))
+        layout.append({"aid": rng.choice(aids), "iid": iid, "svc": rng.choice([0, 0, 1]), "perm": rng.choice(E2E_PERMS), "fmt": fmt, "value": gen_value(rng, fmt, t == "ble")})
+    # every service carries at least one readable characteristic (a service without any makes the CoAP database sweep send an
+    # empty batch, whose answer is up to the accessory - outside this property)
+    for _aid, svcs in _grouped(layout):
+        for _s, chars in svcs:
+            if not any("r" in c["perm"] for c in chars):
+                chars[0]["perm"] = rng.choice(["rw", "r", "trw"])
+    return layout
+
+
+def fixed_layout(t):
+    """four readable+writable characteristics of different formats, a write-only, a read-only and two timed-write ones"""
+    rows = [(11, "rw", "bool", False), (12, "rw", "uint8", 7), (13, "rw", "float", 1.5), (14, "rw", "string", "a"), (15, "w", "bool", False), (16, "r", "int", 5),
+            (17, "trw", "uint8", 1), (18, "tw", "bool", True)]
+    return [{"aid": 1, "iid": i, "svc": 0 if i < 15 else 1, "perm": p, "fmt": f, "value": v} for i, p, f, v in rows]
+
+
+def errors_of(t):
+    return HAP_ERRORS if t == "ip" else PDU_ERRORS
+
+
+def gen_write_item(rng, t, c, reject):
+    it = {"aid": c["aid"], "iid": c["iid"], "value": gen_value(rng, c["fmt"], t == "ble")}
+    must_reject = "w" not in c["perm"]  # a conformant accessory never accepts a write to a characteristic that is not writable
+    if reject or must_reject:
+        it["st"] = rng.choice(errors_of(t))
+        if t == "ble" and "t" in c["perm"]:
+            it["stage"] = rng.choice(["timed", "exec"])
+    else:
+        it["st"] = 0
+    return it
+
+
+def gen_op(rng, t, layout, kinds):
+    kind = rng.choice(kinds)
+    n = rng.choice([1, 1, 2, 2, 3, 4])
+    if kind == "write":
+        pool = [c for c in layout if "w" in c["perm"]] * 4 + layout  # mostly writable ones, sometimes a read-only one
+    else:
+        pool = [c for c in layout if "r" in c["perm"]] * 4 + layout
+    chosen = []
+    for c in rng.sample(pool, len(pool)):
+        if c not in chosen:
+            chosen.append(c)
+    chosen = chosen[:n]
+    p_rej = rng.choice([0.0, 0.3, 0.5, 0.5, 1.0])
+    items = []
+    for c in chosen:
+        rej = rng.random() < p_rej
+        if kind == "write":
+            items.append(gen_write_item(rng, t, c, rej))
+        else:
+            need_rej = "r" not in c["perm"]
+            items.append({"aid": c["aid"], "iid": c["iid"], "st": rng.choice(errors_of(t)) if (rej or need_rej) else 0})
+    return {"op": kind, "items": items, "as": rng.choice(["list", "list", "tuple"])}
+
+
+def _case(t, layout, ops, rng):
+    case = {"stream": "e2e", "transport": t, "layout": layout, "ops": ops}
+    if t == "ble":
+        case["mtu"] = rng.choice([104, 158, 247, 515])
+        case["short_header"] = rng.random() < 0.5
+    if t == "ip":
+        case["chunked"] = rng.random() < 0.3
+        case["style"] = rng.choice(["spec", "spec", "positive", "terse", "verbose", "400"])
+        case["cuts"] = [rng.choice([0, 0, 1, 7, 50, 300]) for _ in range(len(ops) + 1)]
+    return case
+
+
+def e2e_cases(ctx, rng):
+    """directed part: EVERY accept/reject vector for requests of 1..3 characteristics (each rejection with a status drawn from
+    all of the transport's error statuses), every error status on a LONE write and a lone read, on every transport;
+    random part: histories of mixed operations on random layouts"""
+    for t in TRANSPORTS:
+        layout = fixed_layout(t)
+        by = {c["iid"]: c for c in layout}
+        ops = []
+        # a lone write / lone read answered with each status of the transport, on a readable and on a write-only characteristic
+        for st in [0] + errors_of(t):
+            for iid in (12, 15, 17):
+                it = {"aid": 1, "iid": iid, "value": gen_value(rng, by[iid]["fmt"]), "st": st}
+                if t == "ble" and iid == 17 and st:
+                    it["stage"] = rng.choice(["timed", "exec"])
+                ops.append({"op": "write", "items": [it]})
+            ops.append({"op": "read", "items": [{"aid": 1, "iid": 12, "st": st}]})
+            if t != "ble":
+                ops.append({"op": "subscribe", "items": [{"aid": 1, "iid": 12, "st": st}]})
+                ops.append({"op": "unsubscribe", "items": [{"aid": 1, "iid": 12, "st": st}]})
+        # every accept/reject vector over 2 and 3 items (positions first / middle / last), mixed permissions
+        for n in (2, 3, 4):
+            vectors = list(itertools.product([False, True], repeat=n))
+            if n == 4:
+                vectors = rng.sample(vectors, ctx.budget(6, 16))
+            for vec in vectors:
+                iids = rng.sample([11, 12, 13, 14, 15, 17, 18], n)
+                ops.append({"op": "write", "items": [gen_write_item(rng, t, by[i], rej) for i, rej in zip(iids, vec)]})
+                riids = rng.sample([11, 12, 13, 14, 16, 17], n)
+                ops.append({"op": "read", "items": [{"aid": 1, "iid": i, "st": rng.choice(errors_of(t)) if rej else 0} for i, rej in zip(riids, vec)]})
+                if t != "ble" and n < 4:
+                    ops.append({"op": rng.choice(["subscribe", "unsubscribe"]), "items": [{"aid": 1, "iid": i, "st": rng.choice(errors_of(t)) if rej else 0} for i, rej in zip(riids, vec)]})
+        for o in range(0, len(ops), 8):
+            yield _case(t, layout, ops[o:o + 8], rng)
+        kinds = ["write", "write", "write", "read", "read"] + ([] if t == "ble" else ["subscribe", "unsubscribe"])
+        for _ in range(ctx.budget(250, 4000)):
+            layout = gen_layout(rng, t)
+            yield _case(t, layout, [gen_op(rng, t, layout, kinds) for _ in range(rng.randint(2, 6))], rng)
+
+
+def e2e_streams(ctx, driver, rng):
+    cases, outs, lines = {"coapwrite-e2e": [], "blewrite-e2e": [], "ipwrite-e2e": []}, {}, {}
+    for k in cases:
+        outs[k], lines[k] = [], []
+    sampled = set()
+    for case in e2e_cases(ctx, rng):
+        t = case["transport"]
+        rows = []
+        problems, done = e2e_run_case(case, ctx, rows)
+        ctx.evaluations += done
+        seen = set()
+        for sig, what, n in problems:
+            if sig in seen:  # one report per signature and history
+                continue
+            seen.add(sig)
+            # smallest failing input: the offending operation alone on a fresh session, if that already shows it
+            alone = dict(case, ops=[case["ops"][n]], cuts=case.get("cuts", [])[:2])
+            p1, _ = e2e_run_case(alone)
+            hit = [w for s1, w, _n in p1 if s1 == sig]
+            if hit:
+                ctx.violation(sig, hit[0], alone)
+            else:
+                ctx.violation(sig, what, dict(case, ops=case["ops"][:n + 1]))
+        for op in case["ops"][:done]:
+            n = len(op["items"])
+            vec = tuple(bool(i.get("st")) for i in op["items"])
+            ctx.dist[f"{t}-e2e {op['op']} of {n}"] += 1
+            if op["op"] == "write":
+                for pos, rej in enumerate(vec):
+                    if rej:
+                        where = "only" if n == 1 else ("first" if pos == 0 else ("last" if pos == n - 1 else "middle"))
+                        ctx.dist[f"{t}-e2e write: rejected item is the {where} one"] += 1
+            ctx.nontrivial.add((t + "-e2e", op["op"], vec, tuple(sorted({i.get("st", 0) for i in op["items"]}))))
+        if t not in sampled and done:
+            sampled.add(t)
+            ctx.sample({k: v for k, v in case.items() if k != "layout"} | {"ops": case["ops"][:2]}, limit=9)
+        # tie the end-to-end outcomes to the Lean models of the write paths as well
+        for (tt, op, perms, accepted, rejected, notified, r, raised, replies) in rows:
+            items = op["items"]
+            k = tt + "write-e2e"
+            if not all(isinstance(x, tuple) and len(x) == 2 for x in list(notified) + list(r or {})):
+                continue
+            if tt == "coap":
+                lines[k].append("cl.coapput " + " ".join(f"{i['aid']}.{i['iid']}:{'r' if 'r' in perms[i['iid']] else 'w'}:{rejected.get(i['iid'], 0)}" for i in items))
+                outs[k].append(f"{keys_str(notified)} | {keys_str(r)}")
+            elif tt == "ble":
+                lines[k].append("cl.bleput " + " ".join(f"{i['aid']}.{i['iid']}:{perms[i['iid']]}:{1 if i['iid'] in accepted else 0}" for i in items))
+                local = []  # locally refused (not writable) before the first item the accessory rejected
+                for i in items:
+                    if "w" not in perms[i["iid"]]:
+                        local.append((i["aid"], i["iid"]))
+                    elif i["iid"] not in accepted:
+                        break
+                outs[k].append(f"{keys_str(notified)} | {keys_str(local) if raised is not None else keys_str(r)} | {'raised' if raised is not None else 'returned'}")
+            else:
+                if not replies or len(replies) != 1:
+                    continue
+                body = replies[0][1]
+                lines[k].append(f"cl.ipput {keys_str([(i['aid'], i['iid']) for i in items if 'r' in perms[i['iid']]])} {'204' if body is None else J(body)}")
+                outs[k].append(f"{keys_str(notified)} | {canon_result(r)}")
+            cases[k].append({"stream": "e2e", "transport": tt, "layout": case["layout"], "ops": [op]})
+    for k in cases:
+        if cases[k]:
+            compare_with_model(ctx, k, cases[k], outs[k], lines[k], driver)
+
+
 def replay(ctx, driver, c):
+    if c.get("stream") == "e2e":
+        problems, _ = e2e_run_case(c)
+        return "; ".join(f"{sig}: {what}" for sig, what, _n in problems[:3]) or None
     loop = asyncio.new_event_loop()
     try:
         if c["stream"] == "ipwrite":
